@@ -36,8 +36,11 @@ CredOK(c) == c \in {"exact", "lowerScheme", "nominated"}
 CredOpen(c) == c \in {"twoFirstGood", "twoFirstBad"}
 
 (* ---------- Via chains (C18) ---------- *)
-ViaClasses == {"none", "others", "othersTwoLines", "sameNameOtherInst", "ownOnly", "ownThenOther", "otherThenOwn", "ownSecondLine", "ownWithComment"}
-ViaLoop(v) == v \in {"ownOnly", "ownThenOther", "otherThenOwn", "ownSecondLine", "ownWithComment"}
+\* ownNominated: the chain carries this instance's element and the request also says "Connection: Via" - the request
+\* has still passed through this instance
+ViaClasses == {"none", "others", "othersTwoLines", "sameNameOtherInst", "ownOnly", "ownThenOther", "otherThenOwn", "ownSecondLine", "ownWithComment",
+               "ownNominated"}
+ViaLoop(v) == v \in {"ownOnly", "ownThenOther", "otherThenOwn", "ownSecondLine", "ownWithComment", "ownNominated"}
 
 (* ---------- upstream selection (C05) ---------- *)
 PacResults == {"empty", "DIRECT", "PROXY_A", "HTTP_A", "HTTPS_B", "SOCKS5_C", "SOCKS_C", "SOCKS4_C",
